@@ -380,7 +380,13 @@ pub fn create_loose(case: &ContCase, dir: &Path, location: &dyn Fn(usize, &str) 
     ddata.free_data = packinfo_free(case.dir.free, 0);
     drop(dfile);
     let mut m = ManifestPackCreator::new(vendor(), pack_free(case.dir.free, "manifest").into());
-    m.add_pack(ddata, location(0, &dname));
+    // the directory pack is declared first, or (every other case) after the first content pack declared: the order of the
+    // declarations in a manifest is free, packs are told apart by kind, id and uuid
+    let mut ddata = Some(ddata);
+    let dir_later = case.dir.seed % 2 == 1 && !pack_files.is_empty();
+    if !dir_later {
+        m.add_pack(ddata.take().unwrap(), location(0, &dname));
+    }
     let mut names = vec![dname.clone()];
     // the content packs are recorded in the manifest in REVERSE id order (n, n-1, .., 1): lookups must go by pack id,
     // not by position in the manifest
@@ -391,6 +397,9 @@ pub fn create_loose(case: &ContCase, dir: &Path, location: &dyn Fn(usize, &str) 
     recorded.reverse();
     for (id, fname, data) in recorded {
         m.add_pack(data, location(id, &fname));
+        if let Some(d) = ddata.take() {
+            m.add_pack(d, location(0, &dname));
+        }
     }
     let mname = if concat_to.is_some() { "manifest.jbkm" } else { "c.jbk" };
     let mut mfile = std::fs::OpenOptions::new().read(true).write(true).create(true).truncate(true).open(dir.join(mname)).map_err(|e| e.to_string())?;
